@@ -7,8 +7,9 @@ import Karp.Model.Sched
 namespace Karp.Driver.C01
 open Lean Karp.Driver Karp.Driver.ScenarioJson Karp.Scn Karp.Spec.Admissible
 
-/-- `c01.pass`: judge the end state of a real scheduling pass by the admissibility specification -/
-def opPass (inp impl : Json) : Except String Resp := do
+/-- `c01.pass` / `c01.existingseq`: judge the end state of a real scheduling pass by the admissibility specification
+    (`dflt` = the signature of an unclassified violation) -/
+def opPass (inp impl : Json) (dflt : String := "pass") : Except String Resp := do
   let s ← scenario inp
   match fldOpt impl "err" with
   | some (.str e) => if e != "" then return { allowed := some true, spec := some true, why := "pass returned an error: " ++ e } else pure ()
@@ -21,7 +22,7 @@ def opPass (inp impl : Json) : Except String Resp := do
   | none => pure { allowed := some true, spec := some true }
   | some why =>
     -- a leading "[tag] " classifies the violation for known-finding matching
-    let sig := if why.startsWith "[" then ((why.splitOn "]").head!.drop 1).toString else "pass"
+    let sig := if why.startsWith "[" then ((why.splitOn "]").head!.drop 1).toString else dflt
     pure { allowed := some true, spec := some false, why := why, extra := some (jObj [("signature", jStr sig)]) }
 
 /-- `c01.existing`: one node, one pod without inter-pod constraints, no new capacity possible: is the pod placed on the
@@ -180,6 +181,7 @@ def handle : Handler := fun op inp impl =>
   match op with
   | "c01.existing" => opExisting inp impl
   | "c01.pass" => opPass inp impl
+  | "c01.existingseq" => opPass inp impl "existingseq"
   | "c01.filter" => opFilter inp impl
   | _ => .error s!"unknown op {op}"
 
